@@ -49,7 +49,8 @@ def consts(tier):
 # ---- rendering an abstract input into the simulated kernel -------------------
 
 def path_of(file, dl, sfx):
-    base = "/v/f%d_%s" % (file, dl)
+    # (every other file lives on the tmpfs under /dev: a regular file is one wherever it is)
+    base = ("/dev/shm/f%d_%s" if file % 2 else "/v/f%d_%s") % (file, dl)
     return base + " (deleted)" if sfx else base
 
 
@@ -57,7 +58,7 @@ def build_world(w, tab, io_lines, posval, ioval):
     for p in list(w.procs):
         if p != w.caller_pid:
             del w.procs[p]
-    for k in [k for k in w.files if k.startswith("/v/")]:
+    for k in [k for k in w.files if k.startswith(("/v/", "/dev/shm/"))]:
         del w.files[k]
     w.devs = {"/dev/null": 0x103}
     w.dirs.add("/v/dir")
